@@ -16,6 +16,7 @@ class SpecCtx(object):
     self.pc = pc
     self.old = old
     self.modinfo = modinfo
+    self.pre = None
 
   def assume(self, f):
     if not z3.is_true(f):
@@ -29,6 +30,10 @@ class SpecCtx(object):
       oenv = dict(self.old.env)
       oenv[name] = v
       c.old = SpecCtx(oenv, self.old.heap, self.pc, None, self.modinfo)
+    if self.pre is not None:
+      penv = dict(self.pre.env)
+      penv[name] = v
+      c.pre = SpecCtx(penv, self.pre.heap, self.pc, None, self.modinfo)
     return c
 
 
@@ -205,7 +210,7 @@ class SpecMixin(object):
     def pred(e):
       x = z3.Const(fresh_name('c'), U)
       c, c2 = cond(x)
-      return z3.Exists([x], z3.And(c, to_u(self.sv(n.elt, c2), c2) == e))
+      return ExistsT([x], z3.And(c, to_u(self.sv(n.elt, c2), c2) == e))
     return VSetExpr(pred)
 
   def quant_gen(self, gen, cx, universal):
@@ -234,8 +239,8 @@ class SpecMixin(object):
     guard = [src(x)] + [truthy(self.sv(i, c2), c2) for i in g.ifs]
     body = truthy(self.sv(elt, c2), c2)
     if universal:
-      return VBool(z3.ForAll([x], z3.Implies(z3.And(guard), body)))
-    return VBool(z3.Exists([x], z3.And(guard + [body])))
+      return VBool(ForAllT([x], z3.Implies(z3.And(guard), body)))
+    return VBool(ExistsT([x], z3.And(guard + [body])))
 
   def bind_target(self, target, v, cx):
     if isinstance(target, ast.Name):
@@ -253,6 +258,8 @@ class SpecMixin(object):
       h = getattr(self, 'spec_fn_' + name, None)
       if h is not None and name not in cx.env:
         return h(n, cx)
+      if name in self.world.macros and name not in cx.env:
+        return self.expand_macro(name, [self.sv(a, cx) for a in n.args], cx)
     if isinstance(f, ast.Attribute):
       base = self.sv(f.value, cx)
       return self.spec_method(base, f.attr, [self.sv(a, cx) for a in n.args], cx, n)
@@ -294,6 +301,15 @@ class SpecMixin(object):
         return VBool(z3.SuffixOf(args[0].t, base.t))
     raise SpecError('spec method %s on %r' % (meth, base))
 
+  def expand_macro(self, name, args, cx):
+    params, body = self.world.macros[name]
+    if len(params) != len(args):
+      raise SpecError('macro %s arity' % name)
+    c2 = cx
+    for p_, a in zip(params, args):
+      c2 = c2.bind(p_, a)
+    return self.sv(parse_spec(body), c2)
+
   # ---- spec built-ins
 
   def _quant(self, n, cx, universal):
@@ -304,6 +320,7 @@ class SpecMixin(object):
     names = [a.arg for a in lam.args.args]
     consts = []
     c2 = cx
+    guards = []
     for i, nm in enumerate(names):
       ty = tys[i] if i < len(tys) else ANY
       srt = sort_of(ty)
@@ -311,6 +328,11 @@ class SpecMixin(object):
       consts.append(c)
       if srt == U:
         v = VRef(c, ty)
+        if ty.kind == 'obj':
+          guards.append(subcls(typeof(c), cls_const(ty.name)))
+          guards.append(c != NONE)
+          # typed quantifiers range over the objects that existed in the pre-state
+          guards.append((cx.old.heap if cx.old is not None else cx.heap).alloc(c))
       elif srt == I:
         v = VInt(c)
       elif srt == B:
@@ -318,8 +340,31 @@ class SpecMixin(object):
       else:
         v = VStr(c)
       c2 = c2.bind(nm, v)
-    body = truthy(self.sv(lam.body, c2), c2)
-    return VBool(z3.ForAll(consts, body) if universal else z3.Exists(consts, body))
+    body, side = self.under_binder(lam.body, c2)
+    guards = guards + side
+    if universal:
+      return VBool(ForAllT(consts, z3.Implies(z3.And(guards), body) if guards else body))
+    return VBool(ExistsT(consts, z3.And(guards + [body])))
+
+  def under_binder(self, body_node, c2):
+    """Evaluate a quantifier body; heap well-formedness facts about terms that mention the bound
+    variables are collected and returned as guards instead of leaking into the path condition."""
+    saved = c2.pc
+    local = []
+    c2.pc = local
+    if c2.old is not None:
+      c2.old.pc = local
+    if c2.pre is not None:
+      c2.pre.pc = local
+    try:
+      body = truthy(self.sv(body_node, c2), c2)
+    finally:
+      c2.pc = saved
+      if c2.old is not None:
+        c2.old.pc = saved
+      if c2.pre is not None:
+        c2.pre.pc = saved
+    return body, local
 
   def const_str(self, node):
     if isinstance(node, ast.Constant) and isinstance(node.value, str):
@@ -352,17 +397,17 @@ class SpecMixin(object):
   def spec_fn_subset(self, n, cx):
     a, b = [as_setpred(self.sv(x, cx), cx) for x in n.args]
     x = z3.Const(fresh_name('x'), U)
-    return VBool(z3.ForAll([x], z3.Implies(a(x), b(x))))
+    return VBool(ForAllT([x], z3.Implies(a(x), b(x))))
 
   def spec_fn_disjoint(self, n, cx):
     a, b = [as_setpred(self.sv(x, cx), cx) for x in n.args]
     x = z3.Const(fresh_name('x'), U)
-    return VBool(z3.ForAll([x], z3.Not(z3.And(a(x), b(x)))))
+    return VBool(ForAllT([x], z3.Not(z3.And(a(x), b(x)))))
 
   def spec_fn_isempty(self, n, cx):
     a = as_setpred(self.sv(n.args[0], cx), cx)
     x = z3.Const(fresh_name('x'), U)
-    return VBool(z3.ForAll([x], z3.Not(a(x))))
+    return VBool(ForAllT([x], z3.Not(a(x))))
 
   def spec_fn_len(self, n, cx):
     v = self.sv(n.args[0], cx)
@@ -458,14 +503,14 @@ class SpecMixin(object):
     e = z3.Const(fresh_name('u'), U)
     i = z3.Const(fresh_name('ui'), I)
     if k == 'set':
-      conj.append(z3.ForAll([e], h1.mem(now.t, e) == h0.mem(now.t, e)))
+      conj.append(ForAllT([e], h1.mem(now.t, e) == h0.mem(now.t, e)))
     elif k in ('list', 'vtuple'):
       conj.append(h1.len(now.t) == h0.len(now.t))
-      conj.append(z3.ForAll([i], z3.Implies(z3.And(i >= 0, i < h0.len(now.t)),
+      conj.append(ForAllT([i], z3.Implies(z3.And(i >= 0, i < h0.len(now.t)),
                                            h1.item(now.t, i) == h0.item(now.t, i))))
     elif k == 'dict':
-      conj.append(z3.ForAll([e], h1.dom(now.t, e) == h0.dom(now.t, e)))
-      conj.append(z3.ForAll([e], z3.Implies(h0.dom(now.t, e), h1.val(now.t, e) == h0.val(now.t, e))))
+      conj.append(ForAllT([e], h1.dom(now.t, e) == h0.dom(now.t, e)))
+      conj.append(ForAllT([e], z3.Implies(h0.dom(now.t, e), h1.val(now.t, e) == h0.val(now.t, e))))
     return VBool(z3.And(conj))
 
   def spec_fn_setvalue(self, n, cx):
@@ -515,6 +560,17 @@ class SpecMixin(object):
       return VStr(t)
     if rty.kind == 'tuple':
       return from_u(t, rty, cx)
+    # a pure lookup cannot allocate: whatever it returns existed when the function was entered
+    # (global axiom, one per pure function, added to every obligation of this run)
+    ecx = getattr(self, 'entry_cx', None)
+    key = (path, len(us))
+    if ecx is not None and key not in self.pure_axiomatised:
+      self.pure_axiomatised.add(key)
+      if us:
+        vs = [z3.Const(fresh_name('pa'), U) for _ in us]
+        self.axioms.append(ForAllT(vs, ecx.heap.alloc(f(*vs))))
+      else:
+        self.axioms.append(ecx.heap.alloc(f()))
     return VRef(t, rty)
 
   def pure_ret_type(self, path):
